@@ -758,8 +758,9 @@ def run(ctx):
         corpus(ctx, pend)
     except Exception as e:  # noqa
         ctx.violate("reports-exactly-the-edit", ["corpus", "raises"], f"foreign:{type(e).__name__}", {"edit": {"kind": "corpus"}}, "corpus case raised")
-    n_specs = 640 if big else 100
+    n_specs = 400 if big else 88      # (800 before round 7: a history case costs about two fresh ones)
     max_attr = 40 if big else 14
+    hist_every = 2 * HIST_EVERY if big else HIST_EVERY
     names_family(ctx, pend, big)
     param_kinds_family(ctx, pend, big)
     history_family(ctx, pend, big)
@@ -772,7 +773,7 @@ def run(ctx):
         spec = draw_layout(rng, spec)
         # every HIST_EVERY-th edit is additionally made in place on a loaded database (a random schedule)
         explore_spec(ctx, pend, rng, spec, max_attr, 1 if big else 4,
-                     schedule_of=lambda k: rng.choice(L.SCHEDULES) if k % HIST_EVERY == HIST_EVERY // 2 else None)
+                     schedule_of=lambda k: rng.choice(L.SCHEDULES) if k % hist_every == hist_every // 2 else None)
         if len(pend.items) > 4000:
             flush(ctx, pend)
     flush(ctx, pend)
@@ -902,10 +903,11 @@ def history_family(ctx, pend, big):
     several PARENT-REFs ESD, FG <- BV <- EV) under *every* ordered partition of their layers into containers (13 for three
     layers: every loading order of the containers relative to the inheritance direction, each block one ODX-D file), both DOCREF
     styles; every add / delete / rename and a sample of the attribute edits of every layer is made on a loaded database, the
-    schedules N, NR, RN, NON, NO rotating over the edits (thorough: more documents), see history_case."""
+    schedules N, NR, RN, NON, NO rotating over the edits and layouts (thorough: a third shape FG <- BV <- EV with several PARENT-REFs,
+    all 13 layouts for every shape, 6 attribute edits), see history_case."""
     n = 0
     for shape in ("fg+bv+ev", "esd+fg+bv*") + (("fg+bv+ev*",) if big else ()):
-        for rep in range(2 if big else 1):
+        for rep in range(1):
             rng = ctx.sub_rng("history", shape, rep)
             base = gen_spec(rng, big, shape=shape, nsvc_first=2, distinct=True)
             for li, part in enumerate(ordered_partitions([l["name"] for l in base["layers"]])):
